@@ -150,7 +150,9 @@ let run_case (toks : string list) (obs : (string, string list) Hashtbl.t) : stri
            let alloc = try int_of_string (kv "alloc" ok) with _ -> 0 in
            let slen = String.length (kv "stream" k) / 2 in
            (* buffering bounded by what arrived: a hostile frame must not make the decoder allocate far more than the stream holds *)
-           if alloc > 8 * 1048576 + 64 * slen then
+           (* "decompressed payloads aside" (property text): what inflating a compressed call's payload allocates is not bounded by
+              the frame - the inflation oracle lists such payloads *)
+           if alloc > 8 * 1048576 + 64 * slen && (kv "inflated" ok = "-" || kv "inflated" ok = "") then
              Printf.sprintf "PROPFAIL %s sig=allocation-bound decoding a stream of %d bytes allocated %d bytes (limit 8 MiB + 64 x stream length)" id slen alloc
            else if maxask > 65536 + maxv then Printf.sprintf "PROPFAIL %s sig=buffer-bound single read of %d bytes requested with max frame %d" id maxask maxv else
            (* framing-level predicate, from the property text alone: a frame whose prefix is a valid length and whose
